@@ -191,6 +191,14 @@ def facts (c : Cluster) (s : Strategy) (ns : String) (ref : Ref) : Option Facts 
   | none => none
   | some st => (owners st c.filter (groupOf ref) ref.kind).findSome? (factsOf c ns ref)
 
+/-- the record `w` says what the facts `F` demand: "wait" exactly when it must, then nothing else; otherwise every
+    field as the facts have it -/
+def agrees (w : W) (F : Facts) : Bool :=
+  (w.isStatusConsistent == !F.waits) &&
+  (if F.waits then w == W.opaque
+   else w.name == F.name && w.isInRollback == F.rollingBack && w.stableRevision == F.stable && w.canaryRevision == F.canary &&
+        w.podTemplateHash == F.pth && w.revisionLabelKey == F.key && w.inRolloutProgressing == F.inProgress)
+
 /-! ### the oracles (input × output of `GetWorkloadForRef`) -/
 
 def Out.w? : Out → Option W
